@@ -77,6 +77,14 @@ def run(ctx):
     for n in range(16 if quick else 60):
         datasets.append(('cf2d_holes', gen.cf2d(rng, ny=rng.randint(2, 3), nx=rng.randint(2, 4), bounds=False,
                                                 holes=rng.choice(['edge', 'random', 'corner']), shoc_simple=(n % 2 == 0), invalid=False)))
+    # the same special shapes at harbour scale: coordinates divided by 2^21 (edges of a few millionths of a degree, exact in
+    # floating point) - every vertex is still a vertex
+    tiny_nodes, tiny_faces = [], []
+    for m, (name, pts) in enumerate(special_meshes()[:8]):
+        base = len(tiny_nodes)
+        tiny_nodes += [((x + 40 * m) / 2.0 ** 18, y / 2.0 ** 18) for x, y in pts]
+        tiny_faces.append(list(range(base, base + len(pts))))
+    datasets.append(('tiny_cells', gen.ugrid(rng, mesh=(tiny_nodes, tiny_faces), invalid=False, supplied=set())))
     # a large, mostly dry domain: the cells with geometry have linear indexes above 255 while there are few triangles
     datasets.append(('mostly_dry', gen.cf2d(rng, ny=18, nx=16, bounds=True, holes='mostly_dry', invalid=False)))
     if not quick:
